@@ -55,6 +55,10 @@ func c10GenJSONValue(t *rapid.T, depth int) any {
 	case 0:
 		return rapid.StringMatching(`[a-z0-9 ]{0,12}`).Draw(t, "js")
 	case 1:
+		if pct(t, "jbig", 30) {
+			// the whole float64 range is legal JSON: beyond int64, beyond 2^53, tiny, fractional
+			return oneOf(t, "jbign", []float64{1e19, 18446744073709551615, -1e19, 1e300, -1e300, 9223372036854775808, -9223372036854775808, 9007199254740993, 4294967296, 1e-7, 0.1, 2.5e-300, 123456789.125})
+		}
 		return float64(rapid.IntRange(-1000, 1000).Draw(t, "jn"))
 	case 2:
 		return rapid.Bool().Draw(t, "jb")
